@@ -1,6 +1,6 @@
 /-
 C07 — external-data layout is well formed; save restores the model (property theorems).
-Models: `IrVerif/Model/Layout.lean`, `Model/LayoutSt.lean`, `Model/LayoutSeq.lean` (+ `Model/Pack.lean` and
+Models: `IrVerif/Model/Layout.lean`, `Model/LayoutSt.lean`, `Model/LayoutSeq.lean`, `Model/LayoutStSave.lean` (+ `Model/Pack.lean` and
 `Props/C04.lean`, read-only); helper lemmas: `IrVerif/Lemmas/Layout*.lean`.  Core Lean only.
 
 What is claimed for which backend:
@@ -22,6 +22,14 @@ What is claimed for which backend:
   (`C07_roundtrip_value_c04`), shared tensor objects (`C07_readback_shared`), call sequences
   save / load / load_to_model / unload_from_model / convert_tensors_from_external
   (`C07_sequence_preserves`, `C07_sequence_save_load`, raw backend instance `C07_rawBackend_ok`).
+* third round (`Model/LayoutStSave.lean`): the safetensors save on INITIALIZER POSITIONS of the main graph and
+  of every subgraph (`C07_st_unload_values`: classification + sharding + container + re-pointing by name
+  composed, the counterpart of `C07_threshold` + `C07_roundtrip_value`; `C07_st_roundtrip_values`: what
+  `ir.load` of the saved model holds - external iff not STRING and at least the threshold, original dtype /
+  shape / bytes); the safetensors `Backend.Ok` instance (`C07_stBackend_ok`) and sequences mixing both
+  backends (`C07_sequence_mixed`, `C07_sequence_mixed_save_load`); the restore loop under an asynchronous
+  exception (`C07_restore_async`); dtypes without entry in the save table, i.e. COMPLEX128
+  (`C07_st_keyerror_iff`).
 `readAt`/`writeAt` are the model of file reads and writes; they are compared with real files and
 with `ExternalTensor.tobytes()` of the reloaded model through `layout.image` / `layout.read`.
 -/
